@@ -152,7 +152,13 @@ def check_builders(fx, R, S):
         elif fac is not None:
             R.violated('R2', 'eulerAnglesToQuaternion<%s>' % S, 'quaternion factors pair angles and axes as %s, expected angles(2)<->Z, angles(1)<->Y, angles(0)<->X' % fac, fx.rel(fq['loc']), 'E-SIB')
         else:
-            R.undecided('R2', 'eulerAnglesToQuaternion<%s>' % S, 'builder idiom not recognised: %s' % (st,))
+            verdict = builder_witnesses(fx, fq)
+            if verdict[0] == 'violated':
+                R.violated('R2', 'eulerAnglesToQuaternion:value', verdict[1] + ' [%s]' % S, fx.rel(fq['loc']), 'E-ORD')
+            elif verdict[0] == 'proved':
+                R.holds('R2', 'eulerAnglesToQuaternion<%s>' % S, verdict[1], fx.rel(fq['loc']), 'E-ALG')
+            else:
+                R.undecided('R2', 'eulerAnglesToQuaternion<%s>' % S, 'not the enumerated product of three AngleAxis factors; %s' % verdict[1])
     okr = stmts_sx(fr) in ([('return', ('eulerAnglesToQuaternion', 'eulerAngles'))], [('return', ('new:Eigen::Matrix<%s, 3, 3, 0>' % S, ('eulerAnglesToQuaternion', 'eulerAngles')))])
     R.form(okr, 'R2', 'eulerAnglesToRotation3D<%s>' % S, 'is %s, expected the matrix of eulerAnglesToQuaternion(angles)' % (stmts_sx(fr),), 'matrix of the quaternion', fx.rel(fr['loc']), 'E-SIB')
     okq = stmts_sx(fqe) == [('return', ('rotation3DToEulerAngles', ('.toRotationMatrix', ('.normalized', 'quaternion'))))]
@@ -164,6 +170,148 @@ def check_builders(fx, R, S):
             R.violated('R2', 'quaternionToEulerAngles:closed-form', verdict[1] + ' [%s]' % S, fx.rel(fqe['loc']), 'E-ORD')
         else:
             R.undecided('R2', 'quaternionToEulerAngles<%s>' % S, 'not the enumerated form (extraction of the normalised quaternion\'s matrix); %s' % verdict[1])
+
+
+def _qmul(a, b):
+    (_, w1, x1, y1, z1), (_, w2, x2, y2, z2) = a, b
+    return ('quat', w1 * w2 - x1 * x2 - y1 * y2 - z1 * z2, w1 * x2 + x1 * w2 + y1 * z2 - z1 * y2, w1 * y2 - x1 * z2 + y1 * w2 + z1 * x2, w1 * z2 + x1 * y2 - y1 * x2 + z1 * w2)
+
+
+def _qmat(q):
+    _, w, x, y, z = q
+    n = w * w + x * x + y * y + z * z
+    return sp.Matrix([[1 - 2 * (y * y + z * z) / n, 2 * (x * y - z * w) / n, 2 * (x * z + y * w) / n],
+                      [2 * (x * y + z * w) / n, 1 - 2 * (x * x + z * z) / n, 2 * (y * z - x * w) / n],
+                      [2 * (x * z - y * w) / n, 2 * (y * z + x * w) / n, 1 - 2 * (x * x + y * y) / n]])
+
+
+def _is_quat(v):
+    return isinstance(v, tuple) and len(v) == 5 and v[0] == 'quat'
+
+
+def quat_hook(rd, e, st, ctx):
+    """Eigen::AngleAxis / Eigen::Quaternion values as ('quat', w, x, y, z): construction from (angle, unit axis), Hamilton product,
+    component reads and component stores on a local, conjugate / inverse / normalized."""
+    k = e.get('k')
+    COMP = {'w': 1, 'x': 2, 'y': 3, 'z': 4}
+    if k == 'Construct' and 'Eigen::AngleAxis<' in e['t']['s'] and len(e.get('args', [])) == 2:
+        ax = strip_casts(e['args'][1])
+        tail = (ax.get('fn') or '').split('::')[-1] if ax.get('k') == 'Call' else ''
+        if tail in ('UnitX', 'UnitY', 'UnitZ'):
+            out = []
+            for (v, s2) in rd.ev(e['args'][0], st, ctx):
+                h = v / 2
+                c_, s_ = sp.cos(h), sp.sin(h)
+                out.append((('quat', c_, s_ if tail == 'UnitX' else 0, s_ if tail == 'UnitY' else 0, s_ if tail == 'UnitZ' else 0), s2))
+            return out
+        raise sym.Unsupported('AngleAxis about a non-unit-axis expression at %s' % e.get('loc'))
+    if k == 'Construct' and 'Eigen::Quaternion<' in e['t']['s']:
+        args = e.get('args', [])
+        if len(args) == 1:
+            out = []
+            for (v, s2) in rd.ev(args[0], st, ctx):
+                if not _is_quat(v):
+                    raise sym.Unsupported('quaternion built from a non-quaternion value at %s' % e.get('loc'))
+                out.append((v, s2))
+            return out
+        if len(args) == 4:
+            return [(('quat',) + tuple(vals), s2) for (vals, s2) in rd.evs(args, st, ctx)]
+    if k == 'Op' and e.get('op') == '*' and not e.get('inrepo') and len(e.get('args', [])) == 2:
+        out = []
+        for (vals, s2) in rd.evs(e['args'], st, ctx):
+            if _is_quat(vals[0]) and _is_quat(vals[1]):
+                out.append((_qmul(vals[0], vals[1]), s2))
+            else:
+                return ext_hook(rd, e, st, ctx)
+        return out
+    if k == 'MCall' and not e.get('inrepo'):
+        o_ = e['obj']
+        m = e.get('m')
+        if m in COMP or m in ('conjugate', 'inverse', 'normalized', 'toRotationMatrix', 'matrix'):
+            out = []
+            for (v, s2) in rd.ev(o_, st, ctx):
+                if not _is_quat(v):
+                    return ext_hook(rd, e, st, ctx)
+                if m in COMP and not e.get('args'):
+                    out.append((v[COMP[m]], s2))
+                elif m == 'conjugate':
+                    out.append((('quat', v[1], -v[2], -v[3], -v[4]), s2))
+                elif m == 'inverse':
+                    n = sum(c * c for c in v[1:])
+                    out.append((('quat', v[1] / n, -v[2] / n, -v[3] / n, -v[4] / n), s2))
+                elif m == 'normalized':
+                    n = sp.sqrt(sum(c * c for c in v[1:]))
+                    out.append((('quat',) + tuple(c / n for c in v[1:]), s2))
+                else:
+                    out.append((sp.ImmutableMatrix(_qmat(v)), s2))
+            return out
+    if k == 'Store':
+        l = strip_casts(e['lhs'])
+        if l.get('k') == 'MCall' and l.get('m') in COMP and not l.get('args'):
+            o_ = strip_casts(l['obj'])
+            if o_.get('k') == 'Ref' and o_.get('id') in st.locals and _is_quat(st.locals[o_['id']]) and isinstance(e['value'], sp.Basic):
+                q = list(st.locals[o_['id']])
+                old_ = q[COMP[l['m']]]
+                val = e['value']
+                if e['op'] != '=':
+                    val = {'*=': old_ * val, '/=': old_ / val, '+=': old_ + val, '-=': old_ - val}[e['op']]
+                q[COMP[l['m']]] = val
+                st.locals[o_['id']] = tuple(q)
+                return [(val, st)]
+            raise sym.Unsupported('store into a quaternion component that is not a local at %s' % l.get('loc'))
+    return ext_hook(rd, e, st, ctx)
+
+
+def builder_witnesses(fx, f):
+    """eulerAnglesToQuaternion read as a quaternion-valued function of symbolic (roll, pitch, yaw); every path is evaluated on the witness angle
+    triples that satisfy its conditions and the rotation of the returned quaternion must be Rz(yaw) Ry(pitch) Rx(roll)."""
+    import itertools
+    r, p, y = sp.symbols('roll pitch yaw', real=True)
+    try:
+        sts = sym.Reader(fx, call_hook=quat_hook, member_hook=mat.member_hook).run(f, args=[sp.ImmutableMatrix([r, p, y])])
+    except sym.Unsupported as u:
+        return ('undecided', 'not interpretable as a quaternion-valued function: %s' % u)
+    if not sts or not all(_is_quat(st_.ret) for st_ in sts):
+        return ('undecided', 'result not readable as a quaternion')
+    Rx, Ry, Rz = rot.canon(r, p, y)
+    M = Rz * Ry * Rx
+    rolls = (sp.Rational(3, 10), sp.Rational(5, 2), -sp.Integer(2))
+    pitches = (sp.Rational(1, 2), -sp.Rational(6, 5), sp.Integer(0))
+    yaws = (-sp.Rational(2, 5), sp.Rational(11, 10), sp.Rational(7, 2), -sp.Integer(3))
+    n_ok = 0
+    for st_ in sts:
+        desc = ' && '.join(('' if c[2] else '!') + '(' + c[0] + ')' for c in st_.cond)
+        Q = _qmat(st_.ret)
+        for (rv, pv, yv) in itertools.product(rolls, pitches, yaws):
+            env = {r: rv, p: pv, y: yv}
+            ok = True
+            for c in st_.cond:
+                if c[0] in ('True', 'False') or not isinstance(c[1], sp.Basic):
+                    continue
+                v = c[1].subs(env)
+                if v not in (sp.true, sp.false) and hasattr(v, 'lhs'):
+                    v = v.func(sp.N(v.lhs, 40), sp.N(v.rhs, 40))
+                if v not in (sp.true, sp.false):
+                    return ('undecided', 'path condition [%s] not evaluable on the witness angles' % desc)
+                if bool(v) != c[2]:
+                    ok = False
+                    break
+            if not ok:
+                continue
+            try:
+                err = max(abs(sp.N((Q[i, j] - M[i, j]).subs(env), 30)) for i in range(3) for j in range(3))
+            except (TypeError, ValueError):
+                return ('undecided', 'not evaluable on the witness angles')
+            if not err.is_real or err > sp.Float('1e-9'):
+                q_ = [sp.N(c_.subs(env), 6) for c_ in st_.ret[1:]]
+                return ('violated', 'for (roll %s, pitch %s, yaw %s)%s the returned quaternion (w, x, y, z) = %s rotates as a matrix that differs from Rz(yaw) Ry(pitch) Rx(roll) by %s: the quaternion and the '
+                        'angles do not describe the same rotation, and quaternionToEulerAngles does not return these angles%s' % (
+                            rv, pv, yv, ' on the path [%s]' % desc if desc else '', [str(c_) for c_ in q_], sp.N(err, 3),
+                            ' (negating one coefficient of a quaternion changes the rotation; only negating all four keeps it)' if desc else ''))
+            n_ok += 1
+    if len(sts) <= 4 and all(alg.decide_zero(_qmat(st_.ret)[i, j] - M[i, j], domain=_c10_domain)[0] == 'zero' for st_ in sts for i in range(3) for j in range(3)):
+        return ('proved', 'the rotation of the returned quaternion is Rz(yaw) Ry(pitch) Rx(roll) identically on each of the %d path(s)' % len(sts))
+    return ('agrees', 'its rotation equals Rz Ry Rx on %d witness angle triples (all paths), which is not a proof' % n_ok)
 
 
 def quaternion_witnesses(fx, f):
@@ -518,6 +666,7 @@ def check_polar(fx, R, S):
 def check_spherical(fx, R, S):
     fcs = [f for f in fx.fn(NS + 'toCartesian<%s>' % S) if 'SphericalCoordinates' in f['sig']]
     fts = [f for f in fx.fn(NS + 'toSpherical<%s>' % S) if 'Homogeneous' not in f['sig']]
+    fth = [f for f in fx.fn(NS + 'toSpherical<%s>' % S) if 'Homogeneous' in f['sig']]
     if len(fcs) != 1 or len(fts) != 1:
         R.undecided('R6', 'spherical<%s>' % S, 'instantiation missing')
         return
@@ -544,10 +693,18 @@ def check_spherical(fx, R, S):
     want = sp.Matrix([r * sp.cos(a) * sp.sin(e), r * sp.sin(a) * sp.sin(e), r * sp.cos(e)])
     R.check(sp.simplify(sp.Matrix(P) - want) == sp.zeros(3, 1), 'R6', 'toCartesian(Spherical<%s>)' % S, 'Cartesian point is %s' % (P.T.tolist(),), 'r (cos a sin e, sin a sin e, cos e)',
             fx.rel(fc['loc']), 'E-ALG')
+    _spherical_back(fx, R, S, rd, ft, sp.ImmutableMatrix(want), want, r, a, e, '')
+    # the homogeneous overload is a Cartesian -> spherical conversion too: the point (x, y, z, 1) has the same spherical coordinates
+    for fh in fth:
+        R.used(fh)
+        _spherical_back(fx, R, S, rd, fh, sp.ImmutableMatrix(list(want) + [1]), want, r, a, e, '/homogeneous')
+
+
+def _spherical_back(fx, R, S, rd, ft, arg, want, r, a, e, tag):
     try:
-        ps = rd.run(ft, args=[sp.ImmutableMatrix(want)])
+        ps = rd.run(ft, args=[arg])
     except sym.Unsupported as u:
-        R.undecided('R6', 'toSpherical<%s>' % S, str(u))
+        R.undecided('R6', 'toSpherical%s<%s>' % (tag, S), str(u))
         return
     if len(ps) > 1:
         # several paths: each is tried on witness points of the quantifier (norm 1e-6 .. 1e6); a path taken there must return the point's
@@ -581,25 +738,48 @@ def check_spherical(fx, R, S):
                 if rg is None or abs(sp.N(sp.sympify(rg).subs(env), 30) - sp.N(rv, 30)) > sp.N(rv, 30) * sp.Float('1e-9'):
                     bad = bad or (rv, rg)
             if bad:
-                R.violated('R6', 'toSpherical:special-path', 'on the path [%s] a point of norm %s (the quantifier has norms from 1e-6) comes back with range %s: spherical -> Cartesian -> spherical is not the '
+                R.violated('R6', 'toSpherical%s:special-path' % tag, 'on the path [%s] a point of norm %s (the quantifier has norms from 1e-6) comes back with range %s: spherical -> Cartesian -> spherical is not the '
                            'identity there [%s]' % (desc, sp.N(bad[0], 3), bad[1], S), fx.rel(ft['loc']), 'E-ORD')
             elif reached == 0:
-                R.holds('R6', 'toSpherical<%s>:path[%s]' % (S, desc), 'not taken by any witness norm of the quantifier (1e-6 .. 1e6)', fx.rel(ft['loc']), 'E-ORD')
+                R.holds('R6', 'toSpherical%s<%s>:path[%s]' % (tag, S, desc), 'not taken by any witness norm of the quantifier (1e-6 .. 1e6)', fx.rel(ft['loc']), 'E-ORD')
         ps = [generic] if generic is not None else ps
     ret = ps[0].ret if len(ps) == 1 else None
     if not isinstance(ret, dict):
-        R.undecided('R6', 'toSpherical<%s>' % S, 'result not readable: %s' % (ret,))
+        R.undecided('R6', 'toSpherical%s<%s>' % (tag, S), 'result not readable: %s' % (ret,))
         return
     rr = next((v for k, v in ret.items() if k.endswith('range_')), None)
     aa = next((v for k, v in ret.items() if k.endswith('azimut_')), None)
     ee = next((v for k, v in ret.items() if k.endswith('elevation_')), None)
-    ok = all(isinstance(v, sp.Basic) for v in (rr, aa, ee))
-    why = 'range %s azimut %s elevation %s' % (rr, aa, ee)
-    if ok:
-        ok = sp.simplify(rr ** 2 - r ** 2) == 0 and aa.func == sp.atan2 and ee.func == sp.acos
-    if ok:
-        A, B = aa.args
-        rp = sp.Symbol('rpos', positive=True)
-        arg = sp.simplify(ee.args[0].subs(r, rp))
-        ok = sp.simplify(A * sp.cos(a) - B * sp.sin(a)) == 0 and sp.simplify(B / sp.cos(a) - r * sp.sin(e)) == 0 and sp.simplify(arg - sp.cos(e)) == 0
-    R.check(bool(ok), 'R6', 'toSpherical<%s>' % S, 'toSpherical(toCartesian(r,a,e)) gives %s' % why, 'range r, azimut atan2(y,x), elevation acos(z/r)', fx.rel(ft['loc']), 'E-ALG')
+    inst = 'toSpherical%s<%s>' % (tag, S)
+    loc = fx.rel(ft['loc'])
+    why = ('range %s azimut %s elevation %s' % (rr, aa, ee))[:700]
+    if not all(isinstance(v, sp.Basic) for v in (rr, aa, ee)):
+        R.undecided('R6', inst, 'result fields not readable: %s' % why)
+        return
+    opaque = [str(f_) for v in (rr, aa, ee) for f_ in v.atoms(sp.core.function.AppliedUndef)] + [x_.name for v in (rr, aa, ee) for x_ in v.free_symbols if x_.name.startswith('fn:')]
+    if opaque:
+        R.undecided('R6', inst, 'the result contains uninterpreted operations (%s): %s' % (sorted(set(opaque))[0][:80], why))
+        return
+
+    def dom(s_):
+        n_ = s_.name
+        return (1, 1000) if n_.endswith('range_') else (5, 300) if n_.endswith('elevation_') else (-300, 300) if n_.endswith('azimut_') else None
+    vr = alg.decide_zero(rr ** 2 - r ** 2, domain=dom)
+    if vr[0] == 'nonzero':
+        R.violated('R6', inst, 'toSpherical(toCartesian(r, a, e)) returns a range whose square differs from r^2 by %s at %s (range is read as %s): Cartesian -> spherical does not invert spherical -> Cartesian%s' % (
+            vr[2], alg.witness_text(vr[1])[:160], str(rr)[:200], ' for a homogeneous point (x, y, z, 1)' if tag else ''), loc, 'E-ALG')
+        return
+    for (nm_, got_, ref_) in (('azimut', aa, a), ('elevation', ee, e)):
+        vv = alg.decide_zero(got_ - ref_, domain=dom)
+        if vv[0] == 'nonzero':
+            R.violated('R6', inst, 'toSpherical(toCartesian(r, a, e)) returns the %s %s, which differs from the %s it started from by %s at %s (azimut in (-pi, pi), elevation in (0, pi), range > 0): '
+                       'Cartesian -> spherical does not invert spherical -> Cartesian%s' % (nm_, str(got_)[:200], nm_, vv[2], alg.witness_text(vv[1])[:160], ' for a homogeneous point (x, y, z, 1)' if tag else ''), loc, 'E-ALG')
+            return
+    if vr[0] != 'zero' or aa.func != sp.atan2 or ee.func != sp.acos:
+        R.undecided('R6', inst, 'not the enumerated form (range r, azimut atan2(y,x), elevation acos(z/r)): %s' % why)
+        return
+    A, B = aa.args
+    rp = sp.Symbol('rpos', positive=True)
+    arg = sp.simplify(ee.args[0].subs(r, rp))
+    ok = sp.simplify(A * sp.cos(a) - B * sp.sin(a)) == 0 and sp.simplify(B / sp.cos(a) - r * sp.sin(e)) == 0 and sp.simplify(arg - sp.cos(e)) == 0
+    R.check(bool(ok), 'R6', inst, 'toSpherical(toCartesian(r,a,e)) gives %s' % why, 'range r, azimut atan2(y,x), elevation acos(z/r)', loc, 'E-ALG')
